@@ -647,7 +647,7 @@ def main(tier, seed):
         "numbers needing more than 4 contents octets: the encoder may refuse or must emit the canonical longer form",
         "enumeration tables are those of the working tree (names <-> numbers are not compared with the standard here)"]
     run_grid(chk, thorough)
-    recs, meta, refused = random_records(chk, rng, 100000 if thorough else 14000, NAN_RECS[0], NAN_RECS[1])
+    recs, meta, refused = random_records(chk, rng, 250000 if thorough else 14000, NAN_RECS[0], NAN_RECS[1])
     # every small number, exhaustively across the 1-octet (quick) and 2-octet (thorough) boundaries
     lim = 70000 if thorough else 2200
     for x in range(-lim, lim + 1):
